@@ -210,6 +210,27 @@ def run_packed_io(ctx):
                     smii2 = [pl for cid, pl in sec2 if cid == b"SMII"]
                     want2 = struct.pack("<I", int(always2) | (ch2 << 1))
                     ctx.check(smii2 == [want2], "C12.smii.edit_after_load", "loaded always=%r channel=%d, then always=%r channel=%d: SMII is %r, expected %r" % (always, ch, always2, ch2, smii2, want2), recipe=dict(rec, op="smii_edit_after_load", new_always=always2, new_channel=ch2))
+    # the same word on other module types and on the Output module (position 0 of every project)
+    for tname in ("Output", "MetaModule", "Sampler", "MultiCtl", "VorbisPlayer", "Generator"):
+        for always in (False, True):
+            for ch in (0, 1, 16, 17):
+                ctx.case()
+                p = Project()
+                mod = p.output if tname == "Output" else p.new_module(getattr(m, tname))
+                mod.midi_in_always = always
+                mod.midi_in_channel = ch
+                rec = {"op": "smii_types", "type": tname, "always": always, "channel": ch}
+                ok_mem = mod.midi_in_always is always and mod.midi_in_channel == ch
+                ctx.check(ok_mem, "C12.smii.setter", "%s: midi_in_always <- %r, midi_in_channel <- %d read %r / %r" % (tname, always, ch, mod.midi_in_always, mod.midi_in_channel), recipe=rec)
+                data = p.read()
+                sec = chunktools.module_sections(chunktools.parse(data))[2][mod.index]
+                smii = [pl for cid, pl in sec if cid == b"SMII"]
+                want = struct.pack("<I", int(always) | (ch << 1))
+                ctx.check(smii == [want], "C12.smii.bytes", "%s: SMII for always=%r channel=%d is %r, expected %r" % (tname, always, ch, smii, want), recipe=rec)
+                back = read_sunvox_file(BytesIO(data)).modules[mod.index]
+                ctx.check(back.midi_in_always is always and back.midi_in_channel == ch, "C12.smii.roundtrip", "%s: always=%r channel=%d loads as %r/%r" % (tname, always, ch, back.midi_in_always, back.midi_in_channel), recipe=rec)
+                if always:
+                    ctx.mark_nontrivial(rec)
     for a in range(8):
         for b in range(8):
             ctx.case()
